@@ -271,11 +271,18 @@ class LinearEinsum(LinearOperator):
         iss, oss, *_ = subscripts.split("->")
         iss_spl = iss.split(",")
 
-        if len(iss_spl) == 1:
-            self._adj_sscr = "->".join((oss, iss))
-        else:
-            adj_iss = ",".join((",".join(iss_spl[:-1]), oss))
-            self._adj_sscr = "->".join((adj_iss, iss_spl[-1]))
+        # Indices of the varying operand that appear nowhere else are summed
+        # over in `times`; the adjoint is constant along them (numpy.einsum
+        # cannot create axes, so they are broadcast afterwards).
+        last = iss_spl[-1]
+        avail = set("".join(iss_spl[:-1])) | set(oss)
+        adj_oss = "".join(c for c in last if c in avail)
+        self._adj_bcast = None
+        if adj_oss != last:
+            self._adj_bcast = tuple(slice(None) if c in avail else None
+                                    for c in last)
+        adj_iss = ",".join((*iss_spl[:-1], oss))
+        self._adj_sscr = "->".join((adj_iss, adj_oss))
         self._capability = self.TIMES | self.ADJOINT_TIMES
 
     def _device_preparation(self, x, mode):
@@ -292,4 +299,6 @@ class LinearEinsum(LinearOperator):
             ss, *(mf[k].val for k in self._key_order), x.val,
             **self._ein_kw
         )
+        if mode != self.TIMES and self._adj_bcast is not None:
+            res = np.broadcast_to(res[self._adj_bcast], dom.shape).copy()
         return Field.from_raw(dom, res)
